@@ -318,6 +318,10 @@ func FieldOptions(t *rapid.T, f *ir.File, c *ir.Config, o KOpts) {
 		c.CustomTypes = map[string]string{}
 		c.Suffixes = map[string]string{}
 		cts := []string{"StringCustom", "github.com/acme/api/wrappers.Traits", "wrappers.Labels", "a/b.C"}
+		if c.DefaultPackageName != "" {
+			// a custom type that lives in the struct package, spelled with its qualifier
+			cts = append(cts, c.DefaultPackageName+".Traits", c.DefaultPackageName+".Traits")
+		}
 		for i, oc := range occ {
 			fl := oc.Field
 			if oc.Embed || isExcluded(oc) || oc.FullKey == "" || fl.Oneof != "" || fl.Card == ir.Map || fl.CustomType != "" || fl.Kind == ir.KMessage || fl.Kind == ir.KTimestamp || fl.Kind == ir.KDuration {
